@@ -43,7 +43,7 @@ underscore in base 10), value below 2^64; `none` = error. -/
 def parseUint64 (s : Bytes) : Option Nat :=
   if s = [] then none else
   match parseDecAux 0 s with
-  | some n => if n < 2 ^ 64 then some n else none
+  | some n => if n < 18446744073709551616 then some n else none
   | none => none
 
 /-! ## Lines -/
@@ -309,9 +309,12 @@ def appendLine (ord : Order) (s : Snap) (l : Bytes) : Snap × List FsOp :=
     (r'.1, r.2 ++ r'.2)
   else r
 
-/-- `updateClock` with `clk = s.clock.Time()` (uint64 arithmetic: Time()-1 wraps at 0). -/
+/-- `s.clock.Time() - 1` in uint64 arithmetic (wraps at 0); 18446744073709551616 = 2^64. -/
+def lastSeenOf (clk : Nat) : Nat := (clk + 18446744073709551615) % 18446744073709551616
+
+/-- `updateClock` with `clk = s.clock.Time()`. -/
 def updateClock (ord : Order) (s : Snap) (clk : Nat) : Snap × List FsOp :=
-  let lastSeen := (clk + (2 ^ 64 - 1)) % 2 ^ 64
+  let lastSeen := lastSeenOf clk
   if lastSeen > s.lastClock then
     appendLine ord { s with lastClock := lastSeen } (printLine (.clock lastSeen))
   else (s, [])
